@@ -892,6 +892,14 @@ func evalFunctionCall(node *jparse.FunctionCallNode, data reflect.Value, env *en
 		return undefined, newEvalError(ErrNonCallable, node.Func, nil)
 	}
 
+	// Built-in and registered functions are shared by every
+	// evaluation (and every goroutine). Don't store per-call
+	// state (name, context) in the shared object.
+	if gc, ok := fn.(*goCallable); ok {
+		cp := *gc
+		fn = &cp
+	}
+
 	if setter, ok := fn.(nameSetter); ok {
 		if sym, ok := node.Func.(*jparse.VariableNode); ok {
 			setter.SetName(sym.Name)
